@@ -1,9 +1,10 @@
 #!/bin/sh
-# usage: tools/harvest_seeded.sh <outdir of candidate mutants, e.g. /tmp/seeded_out>
+# usage: tools/harvest_seeded.sh <outdir of candidate mutants, e.g. /tmp/seeded_out> [name prefix]
 # For every candidate <out>/<ID>/m*/ : confirm on a scratch worktree of /repo (HEAD) that the patch applies, the pinned
 # test-suite summary is unchanged, the demonstration passes without and fails with the patch; then run the property's
 # check (quick) against /repo with the patch applied and record everything in /verif/seeded/<ID>/<name>/meta.json.
 OUT="$1"
+PREFIX="${2:-}"      # e.g. r2- for a second round
 BASE="19 failed, 452 passed, 14 xfailed"
 WT=$(mktemp -d /tmp/harvest-wt.XXXXXX)
 git -C /repo worktree add -q --detach "$WT" HEAD || exit 2
@@ -11,7 +12,8 @@ trap 'git -C /repo worktree remove --force "$WT" >/dev/null 2>&1' EXIT
 for d in "$OUT"/C*/m*/; do
   ID=$(basename $(dirname "$d")); M=$(basename "$d")
   [ -f "$d/patch.diff" ] || continue
-  DEST=/verif/seeded/$ID/$M
+  DEST=/verif/seeded/$ID/$PREFIX$M
+  [ -f "$DEST/meta.json" ] && continue
   git -C "$WT" checkout -q -- . 
   PATCH="$d/patch.diff"
   [ -f "$d/patch.rebased.diff" ] && PATCH="$d/patch.rebased.diff"
